@@ -200,6 +200,11 @@ func (c *Concretiser) Bytes(m M) []byte {
 		return pgw.Query(c.prepScript(Sub(m, "q")))
 	case "P":
 		oids := make([]uint32, I(m, "noids"))
+		for i := range oids {
+			// types prespecified by the frontend: the library does not use them, a statement's Describe
+			// announces what the handler declared
+			oids[i] = []uint32{0, 23, 25, 20, 16, 701, 1043, 2950, 23, 25}[c.Rng.Intn(10)]
+		}
 		if c.stmtOids == nil {
 			c.stmtOids = map[string][]int{}
 		}
@@ -288,7 +293,10 @@ func (c *Concretiser) Bytes(m M) []byte {
 	case "f":
 		return pgw.CopyFail("client " + c.randText(6))
 	case "U":
-		ty := []byte("zZ0!Aa")[c.Rng.Intn(6)]
+		ty := []byte{'z', 'Z', '0', '!', 'A', 'a', 0x00, 0x7f, 0x80, 0xff, 'F', 0x01}[c.Rng.Intn(12)]
+		if v, has := m["tyb"]; has {
+			ty = byte(AsInt(v)) // the behaviour names the type byte
+		}
 		return pgw.Typed(ty, c.randBytes(8))
 	case "Big":
 		L := c.X.EffLimit()
